@@ -36,20 +36,30 @@ ASSUMPTIONS = c01.ASSUMPTIONS[:3] + [
 BOUNDS = {
     "quick": "managers built by <=2 expression definitions over {a,b,n.x} (all 1-definition managers, chains and joins of 2); <=2 calls while frozen out of "
              "{value / expression / in-place (value, ref) assignment per location, register, unregister, load (overwrite on/off), copy_expr_from, refresh, verify, cleanup, clone}; "
-             "1 operation after unfreezing + follow-up assignment to each location",
+             "1 operation after unfreezing + follow-up assignment to each location; plain-number mode: 3 value-type calls while frozen (value / += / whole-list replacement) whose values are the Python ints 1 / 2, on 3 managers over {a,l0,l1,n.x}",
     "thorough": "all managers of <=2 definitions over {a,b,n.x,l0}, <=3 calls while frozen (reduced call set for the third), both builds",
 }
 OUTSIDE = "more calls while frozen; FunctionTask/LinearKnob registration while frozen (register() path is the same)"
-REQUIRED_CLASSES = ["frozen_rejected", "frozen_value_ok", "unfrozen_compared", "followup", "refresh_rejected"]
+REQUIRED_CLASSES = ["frozen_rejected", "frozen_value_ok", "unfrozen_compared", "followup", "refresh_rejected", "plain_number_values"]
 PROFILE_CASES = 4
 TASKS_PER_CHILD = 30
 LOCS = ["a", "b", "n.x"]
 
 
-def frozen_calls(st, locs):
+def frozen_calls(st, locs, value_only=False):
     """(call descriptor, changes_graph) for the current definitions."""
     out = []
     defs = st.defs
+    if value_only:
+        # value-type calls only (none of them changes the graph): plain assignments to undefined locations,
+        # += value, and replacing the list as a whole (which changes its members by another route)
+        for t in locs:
+            if t not in defs:
+                out.append((("val", t), False))
+                out.append((("iadd", t), False))
+        if not any(x in defs for x in ("l0", "l1", "l")):
+            out.append((("replace", "l"), False))
+        return out
     for i, t in enumerate(locs):
         out.append((("val", t), t in defs))
         if t.startswith("K-"):
@@ -101,6 +111,9 @@ def do_call(st, call, other=None):
 
 
 def full_state(st):
+    if getattr(st, "plain", False):
+        # long value-only sequences: definitions and index supports (the query sweep is made in the other cases)
+        return {"snap": c03.snapshot(st.m, st.xd), "tasks": sorted(str(t) for t in st.m.tasks)}
     return {
         "snap": c03.snapshot(st.m, st.xd),
         "queries": c03.queries(st.m, st.r, None),
@@ -132,6 +145,10 @@ def run_case(ex, case):
     st = c03.HState(ex, case["build"])
     tw = c03.HState(ex, case["build"], init=st.init)
     tw.vals = st.vals
+    if case.get("plain"):
+        # plain-number mode (see c01.State.fresh): assigned values are the Python ints 1 / 2
+        st.plain = tw.plain = True
+        note(ex, "plain_number_values")
 
     def both(op):
         n0 = st.nv
@@ -145,7 +162,7 @@ def run_case(ex, case):
     st.m.freeze_tree()
     st.hist.append("freeze_tree()")
     for k in range(case["nfrozen"]):
-        calls = frozen_calls(st, locs)
+        calls = frozen_calls(st, locs, case.get("plain"))
         i = case["first"] if k == 0 else ex.choose(len(calls) + 1)
         if i >= len(calls):
             break          # fewer calls while frozen
@@ -200,7 +217,7 @@ def run_case(ex, case):
                 bad = [k2 for k2 in after if after[k2] != before[k2]]
                 ex.fail(f"frozen: `{desc}` changed {bad}", {"history": list(st.hist)})
                 return
-            if call[0] in ("val", "iadd"):
+            if call[0] in ("val", "iadd", "replace"):
                 note(ex, "frozen_value_ok")
                 if not oracle_ok(ex, st, f"frozen: after `{desc}`"):
                     return
@@ -218,6 +235,8 @@ def run_case(ex, case):
         return
     # one more operation on both, then a follow-up assignment to every location
     ops = [o for o in c03.list_ops(st.defs, locs) if not str(o[1]).startswith("K-")]
+    if case.get("plain"):
+        ops = ops[:1]          # the long frozen phase is the subject here; one fixed operation after unfreezing
     op = ops[ex.choose(len(ops))]
     outs = []
     n0 = st.nv
@@ -241,7 +260,7 @@ def run_case(ex, case):
         bad = [k2 for k2 in a if a[k2] != b[k2]]
         ex.fail(f"after unfreeze_tree() and `{st.hist[-1]}`: {bad} differ from a never-frozen twin", {"history": list(st.hist)})
         return
-    for L in locs:
+    for L in (locs[:1] if case.get("plain") else locs):
         note(ex, "followup")
         v = ex.int(f"fu_{L}")
         for w in (st, tw):
@@ -291,6 +310,13 @@ def cases(tier):
             n = len(_calls_for(st_defs, KL))
             for i in range(n):
                 out.append({"build": "pure", "locs": KL, "defs": m, "nfrozen": 2, "first": i})
+        # three value-type calls while frozen, with plain Python numbers as values
+        PL = ["a", "l0", "l1", "n.x"]
+        for m in ([["b", ["mul", ["loc", "l0"], ["const", 2]]]],
+                  [["b", ["add", ["loc", "l0"], ["loc", "l1"]]], ["c", ["neg", ["loc", "a"]]]],
+                  [["b", ["add", ["loc", "n.x"], ["loc", "a"]]], ["c", ["mul", ["loc", "b"], ["const", 2]]]]):
+            for i in range(9):
+                out.append({"build": "pure", "locs": PL, "defs": m, "nfrozen": 3, "first": i, "plain": True})
     else:
         L4 = ["a", "b", "n.x", "l0"]
         for b in ("pure", "compiled"):
